@@ -493,6 +493,99 @@ Definition eqb_uxobs (a b : uxobs) : bool :=
   let '(b1, b2, b3, b4, b5, b6, b7, b8, b9) := b in
   (a1 =? b1) && (a2 =? b2) && (a3 =? b3) && (a4 =? b4) && (a5 =? b5) && (a6 =? b6) && (a7 =? b7) && (a8 =? b8) && (a9 =? b9).
 
+(* ---- block queries with full content (Visor.GetBlocks[Verbose], GetBlocksInRange[Verbose],
+   GetLastBlocks[Verbose], GetSignedBlockBySeq[Verbose], GetSignedBlockByHash[Verbose], GetBlock).
+   A returned block is (block id = header hash, its transaction ids, and for the verbose
+   forms per transaction the inputs: spent output id, owner, coins, initial hours,
+   CalculatedHours). RULE (visor.getBlockInputs / NewTransactionInput): CalculatedHours of
+   an input of block k is UxOut.CoinHours of the spent output at the time of block k-1 of
+   the CHAIN (the head when the block was made), 0 if that computation reports any error;
+   the genesis block has one transaction with no inputs. *)
+Definition inrow := (Z * Z * Z * Z * Z)%type.
+Definition brow := (Z * list Z * list (list inrow))%type.
+Definition calc_hours (u : uxout) (t : Z) : Z :=
+  match UxOut_CoinHours (ux_time u) (ux_coins u) (ux_hours u) t with
+  | Val (h, None) => h
+  | _ => 0
+  end.
+Definition parent_time (c : chain) (b : block) : option Z :=
+  match find (fun p => b_seq p =? b_seq b - 1) c with Some p => Some (b_time p) | None => None end.
+(* None = the query fails (missing parent / missing output) *)
+Definition block_inputs (lookup : Z -> option uxout) (c : chain) (b : block) : option (list (list inrow)) :=
+  if b_seq b =? 0 then Some [[]]
+  else match parent_time c b with
+       | None => None
+       | Some t =>
+           ofold (fun acc tx =>
+                    match ofold (fun rows i => match lookup i with
+                                               | Some u => Some (rows ++ [(ux_id u, ux_addr u, ux_coins u, ux_hours u, calc_hours u t)])
+                                               | None => None
+                                               end) (t_ins tx) [] with
+                    | Some rows => match rows with [] => None | _ => Some (acc ++ [rows]) end   (* "inputs is empty" error *)
+                    | None => None
+                    end) (b_txns b) []
+       end.
+Definition block_row (lookup : Z -> option uxout) (c : chain) (verbose : bool) (b : block) : option brow :=
+  if verbose then match block_inputs lookup c b with Some i => Some (b_id b, map t_id (b_txns b), i) | None => None end
+  else Some (b_id b, map t_id (b_txns b), []).
+Fixpoint all_some {A} (l : list (option A)) : option (list A) :=
+  match l with
+  | [] => Some []
+  | Some x :: r => match all_some r with Some y => Some (x :: y) | None => None end
+  | None :: r => None
+  end.
+(* Blockchain.GetBlocks: every seq must exist, in the order asked *)
+Definition blocks_by_seqs (c : chain) (seqs : list Z) : option (list block) :=
+  all_some (map (fun k => find (fun b => b_seq b =? k) c) seqs).
+Fixpoint range_loop_b (c : chain) (i : Z) (fuel : nat) : list block :=
+  match fuel with
+  | O => []
+  | Datatypes.S f => match find (fun b => b_seq b =? i) c with
+             | Some b => b :: range_loop_b c (i + 1) f
+             | None => []
+             end
+  end.
+Definition range_b (c : chain) (lo hi : Z) : list block :=
+  if hi <? lo then [] else range_loop_b c lo (Z.to_nat (hi - lo + 1)).
+Definition last_b (c : chain) (num : Z) : list block :=
+  if num =? 0 then [] else
+  let e := head_seq c in
+  if e <? 0 then [] else
+  let start := swrap 64 (swrap 64 (wrap 64 (e - num)) + 1) in
+  let start := if start <? 0 then 0 else start in
+  range_b c start e.
+(* api: 0 GetBlocksVerbose seqs | 1 GetBlocksInRangeVerbose [lo;hi] | 2 GetLastBlocksVerbose [n]
+        3 GetSignedBlockBySeqVerbose [k] | 4 GetSignedBlockByHashVerbose [block id]
+        5 GetBlocks seqs | 6 GetBlock [k] (error above the head) | 7 GetSignedBlockByHash [block id]
+        8 GetBlocksInRange [lo;hi] | 9 GetLastBlocks [n] *)
+Definition bq_select (c : chain) (api : Z) (args : list Z) : option (list block) :=
+  let one (o : option block) := match o with Some b => Some [b] | None => Some [] end in
+  match api, args with
+  | 0, _ | 5, _ => blocks_by_seqs c args
+  | 1, [lo; hi] | 8, [lo; hi] => Some (range_b c lo hi)
+  | 2, [n] | 9, [n] => Some (last_b c n)
+  | 3, [k] => one (find (fun b => b_seq b =? k) c)
+  | 4, [i] | 7, [i] => one (find (fun b => b_id b =? i) c)
+  | 6, [k] => if head_seq c <? k then None else one (find (fun b => b_seq b =? k) c)
+  | _, _ => None
+  end.
+Definition bq_answer (lookup : Z -> option uxout) (c : chain) (api : Z) (args : list Z) : option (list brow) :=
+  match bq_select c api args with
+  | None => None
+  | Some bs => all_some (map (block_row lookup c (api <=? 4)) bs)
+  end.
+(* on the maintained state: outputs come from the history bucket (history.GetUxOuts) *)
+Definition q_bq (n : node) (api : Z) (args : list Z) : option (list brow) :=
+  bq_answer (fun i => match aget i (h_outs (n_hs n)) with Some o => Some (ho_ux o) | None => None end) (n_chain n) api args.
+(* from first principles: outputs looked up among everything the chain created *)
+Definition spec_bq (c : chain) (api : Z) (args : list Z) : option (list brow) := bq_answer (find_ux c) c api args.
+Definition eqb_inrow (a b : inrow) : bool :=
+  let '(a1, a2, a3, a4, a5) := a in let '(b1, b2, b3, b4, b5) := b in
+  (a1 =? b1) && (a2 =? b2) && (a3 =? b3) && (a4 =? b4) && (a5 =? b5).
+Definition eqb_brow (a b : brow) : bool :=
+  let '(a1, a2, a3) := a in let '(b1, b2, b3) := b in
+  (a1 =? b1) && eqb_list Z.eqb a2 b2 && eqb_list (eqb_list eqb_inrow) a3 b3.
+
 (* a transaction query: kind 0 = all, 1 = confirmed only, 2 = unconfirmed only; address filter;
    result rows (txn id, confirmed, block seq) canonically ordered; whether the
    confirmed rows came back in non-decreasing block order *)
@@ -508,7 +601,8 @@ Record obs := mk_obs {
   ob_bseq : list (Z * option Z);                                    (* GetSignedBlockBySeq *)
   ob_brange : list (Z * Z * list Z);                                (* GetBlocksInRange *)
   ob_blast : list (Z * list Z);                                     (* GetLastBlocks *)
-  ob_bsince : list (Z * Z * list Z) }.                              (* GetSignedBlocksSince *)
+  ob_bsince : list (Z * Z * list Z);                                (* GetSignedBlocksSince *)
+  ob_bq : list (Z * list Z * option (list brow)) }.                 (* every block query API, see bq_select *)
 
 (* one step of a history: what happened, the pool afterwards, what the node answered *)
 Inductive hop := HBlock (b : block) | HReopen (iw : idx_wipe) (hw : hist_wipe) (order : list Z) | HPool.
